@@ -47,3 +47,18 @@ package meta
 //@   site call removeMetricsSegmentsByList #1:
 //@     assert [the-meta-file-is-rewritten-under-the-lock] ghost(0, "mmLockHeld") == 1
 //@ end
+
+// C08 (datapoints come back after a restart): the metrics-meta file is the only
+// record of the rotated metrics segments; at start-up the segment list is
+// rebuilt from the map ReadMetricsMeta returns.  Each line of the file gets a
+// record OF ITS OWN: the pointer stored for a line is distinct from every pointer
+// stored for an earlier line (one shared record would make every key describe
+// the last line, and all but one segment would never be searched again).
+//@ func ReadMetricsMeta
+//@   props C08
+//@   assumecalleerequires
+//@   site mapupdate retVal[mMeta.MSegmentDir] #1:
+//@     assert [each-line-of-the-meta-file-gets-a-record-of-its-own] value != nil && forallstr(k, implies(haskey(retVal, k), retVal[k] != value))
+//@   loop 1:
+//@     invariant [records-stored-so-far-were-allocated-before-this-line] forallstr(k, implies(haskey(retVal, k), allocated(retVal[k])))
+//@ end
